@@ -213,6 +213,8 @@ func C01(c *Ctx) {
 	c.R.Rule("C01-R7", "E1", "matching leaves the pattern and the message intact (answers are about the pattern and message the caller holds)", 8)
 	c.R.Rule("C01-R8", "E3+E5", "a pattern of one kind (map, array, number, boolean) is only matched by a message part of the same kind", 4)
 	c.R.Rule("C01-R9", "E3", "the variable predicates mean what the documentation says", 2)
+	c.R.Rule("C01-R10", "E3+E5", "a pattern array's variable and constants are what getVariable found, and a variable is matched by arraycatMatch before the array case succeeds", 4)
+	c01ArrayVariable(c, "C01-R10")
 	m := c.newMatchModel()
 	for _, f := range m.fns {
 		c.R.Fn(fname(f))
@@ -654,6 +656,8 @@ func C02(c *Ctx) {
 	c.R.Rule("C02-R7", "E5", "a message member's presence is decided by the lookup's ok flag (null is a value)", 1)
 	c.R.Rule("C02-R6", "E1", "matching leaves the pattern and the message intact (a modified pattern loses solutions on its next use)", 8)
 	m := c.newMatchModel()
+	c.R.Rule("C02-R11", "E5+E3", "whether matching fails with an error depends on the pattern alone", 4)
+	c02ErrorOrigins(c, "C02-R11", m)
 	for _, f := range m.fns {
 		c.R.Fn(fname(f))
 	}
